@@ -121,6 +121,14 @@ def run(tier, seed):
                         dict(nonterminals=hvals[0][0], rules=hvals[0][1], impl_graph=hvals[0][2])],
                size_histogram=sizes, kernel_reevaluated=nk + nk2,
                open_items=[])
+    if tier == "thorough":
+        # independent re-check of the compiled development with coqchk (several minutes)
+        rc, out = sh(["timeout", "1500", "coqchk", "-silent", "-o", "-R", os.path.join(COQDIR, "theories"), "Fggs", "Fggs.Props.C19"], cwd=COQDIR, timeout=1600)
+        summary = out[out.find("CONTEXT SUMMARY"):][:1500] if "CONTEXT SUMMARY" in out else out[-1500:]
+        cov["coqchk"] = dict(exit=rc, summary=summary)
+        if rc != 0 or "Axioms: <none>" not in out:
+            violations.append(Violation("coqchk does not accept Props/C19 without axioms", case=None, observed=summary,
+                                        corr="coqchk -o Fggs.Props.C19", failing_input_found=False))
     return cov, violations
 
 def replay(path):
